@@ -446,6 +446,10 @@ def relevance(obligation_name, contract=None):
     """-> predicate on hypothesis tags, or None (use everything)"""
     import re
     goal = re.sub(r"@\d+$", "", obligation_name).split(":")[-1]
+    strict = getattr(contract, "relevant_strict", None) or {}
+    if goal in strict:
+        only = set(strict[goal])
+        return lambda tag: tag in only or _base(tag) in only   # nothing but the named clauses (and untagged facts)
     extra = getattr(contract, "relevant", None) or {}
     if goal in extra:
         wanted = set(extra[goal])
